@@ -25,6 +25,7 @@ const (
 	PolPCT                // random priorities with a few change points
 	PolStarve             // one chosen background task runs only when nothing else can
 	PolBgReverse          // like BgFirst but the youngest task first
+	PolStallPublish       // random, but some tasks stall right before they publish (slow client write) until nothing else can run
 	numPolicies
 )
 
@@ -34,7 +35,7 @@ const (
 	PolBgFirstExcept = 101 // BgFirst, but tasks in Driver.held never run
 )
 
-var policyNames = []string{"random", "sticky", "bg-first(sequential)", "hold-bg-then-permute", "pct", "starve-one", "bg-youngest-first"}
+var policyNames = []string{"random", "sticky", "bg-first(sequential)", "hold-bg-then-permute", "pct", "starve-one", "bg-youngest-first", "stall-at-publish"}
 
 // Env is the simulated environment of one server instance.
 type Env struct {
@@ -70,6 +71,7 @@ type Driver struct {
 	prio     map[int]int
 	pctLeft  int
 	starve   int
+	stall    map[int]int // PolStallPublish: task id -> 1 stalls at its publish point, 2 does not
 	StepBudget int
 
 	MaxLive      int
@@ -81,6 +83,7 @@ type Driver struct {
 	OnMsg func(m *simwire.Msg)
 	// AutoConfig answers workspace/configuration requests: nil = never answer.
 	quiet bool
+	waiting bool // a client request is waiting for its response
 	held  map[int]bool
 }
 
@@ -120,7 +123,7 @@ func (d *Driver) isBg(t *simrt.Task) bool { return t != d.Sess.Disp }
 
 // pick chooses the next task among the runnable ones according to the policy.
 func (d *Driver) pick(run []*simrt.Task, clientIdle bool) *simrt.Task {
-	if len(run) == 1 {
+	if len(run) == 1 && d.Policy != PolStallPublish {
 		return run[0]
 	}
 	var bg []*simrt.Task
@@ -176,6 +179,36 @@ func (d *Driver) pick(run []*simrt.Task, clientIdle bool) *simrt.Task {
 			d.prio[best.ID] = 0 - d.pctLeft
 		}
 		return best
+	case PolStallPublish:
+		if d.stall == nil {
+			d.stall = map[int]int{}
+		}
+		var free []*simrt.Task
+		for _, t := range run {
+			if r := d.S.Pending(t); r != nil && r.Kind == "client.publish" {
+				if d.stall[t.ID] == 0 {
+					d.stall[t.ID] = 2 - d.C.Choose("stall-at-publish", 2)
+				}
+				if d.stall[t.ID] == 1 {
+					continue
+				}
+			}
+			free = append(free, t)
+		}
+		if len(free) == 0 && !clientIdle && !d.waiting && !d.anyBlocked() {
+			// the stalled publishes stay stalled while the client has more to send
+			return nil
+		}
+		if len(free) == 0 {
+			// only stalled publishes are left: release one, in a chosen order
+			t := run[d.C.Choose("release-publish", len(run))]
+			d.stall[t.ID] = 2
+			return t
+		}
+		if len(free) == 1 {
+			return free[0]
+		}
+		return free[d.C.Choose("task", len(free))]
 	case PolStarve:
 		if d.starve < 0 && len(bg) > 0 {
 			d.starve = bg[d.C.Choose("starve-which", len(bg))].ID
@@ -192,6 +225,18 @@ func (d *Driver) pick(run []*simrt.Task, clientIdle bool) *simrt.Task {
 		return others[d.C.Choose("task", len(others))]
 	}
 	return run[d.C.Choose("task", len(run))]
+}
+
+// anyBlocked reports whether some task is parked on a lock it could not get.
+func (d *Driver) anyBlocked() bool {
+	for _, t := range d.S.Tasks {
+		if t.State == simrt.StParked && t.Blocked {
+			if r := d.S.Pending(t); r != nil && r.Kind != "read" {
+				return true
+			}
+		}
+	}
+	return false
 }
 
 // StepOne runs one scheduler step; false when nothing is runnable.
@@ -219,6 +264,9 @@ func (d *Driver) StepOne(clientIdle bool) bool {
 		d.MaxLive = live
 	}
 	t := d.pick(run, clientIdle)
+	if t == nil {
+		return false
+	}
 	if d.last != nil && d.last != t && d.last.State == simrt.StParked && d.S.Runnable(d.last) {
 		d.Preemptions++
 	}
@@ -301,6 +349,8 @@ func (d *Driver) Call(method string, params any) *simwire.Msg {
 	d.activate()
 	id := d.Sess.Request(method, params)
 	var resp *simwire.Msg
+	d.waiting = true
+	defer func() { d.waiting = false }()
 	d.Pump(func() bool {
 		resp = d.Sess.Response(id)
 		return resp != nil
